@@ -35,6 +35,7 @@ CONSTANTS Chain,        \* sequence of handler names, the registered order
           Nets, Srcs, Covers,   \* Covers[n][s] \in BOOLEAN ; "bad" \in Nets is unparsable
           AclSets,      \* the access lists explored (subsets of Nets)
           MaxViews,
+          Admit(_, _),  \* which (access list, views) configurations a run explores
           Borns,        \* {"wire","msg"}
           Answers       \* {"cache","tail"}: who would answer the question downstream
 
@@ -74,7 +75,7 @@ Matching(s) == {i \in 1..Len(views) : Contains({views[i].net}, s)}
 FirstMatch(s) == IF Matching(s) = {} THEN 0
                  ELSE CHOOSE i \in Matching(s) : \A j \in Matching(s) : i <= j
 
-Init == /\ acl \in AclSets /\ views \in ViewLists
+Init == /\ acl \in AclSets /\ views \in ViewLists /\ Admit(acl, views)
         /\ req = NoReq /\ pos = 1 /\ live = FALSE
         /\ written = "none" /\ viewSel = 0 /\ touched = {}
 
